@@ -323,7 +323,7 @@ func TestVf_C12(t *testing.T) {
 		wg.Add(1)
 		go func(wk int) {
 			defer wg.Done()
-			for i := wk; i < len(cases); i += workers {
+			for i := wk; i < len(cases) && !run.Enough(); i += workers {
 				run.Case(cases[i])
 				vfC12Run(run, streams[cases[i].Stream], cases[i])
 				if run.NViolations() > 40 {
